@@ -17,6 +17,7 @@
 (*            "filt_named"  @reg.<chain>("<name>")   def f(...)            *)
 (*            "named_filt"  @reg("<name>").<chain>   def f(...)            *)
 (*            "apply"       @schema.hooks.apply(f, name="<name>") on test  *)
+(*            "apply_own"   @schema.hooks.apply(<hook name>) on test       *)
 (*        c = the chain of apply_to(...) / skip_for(...) calls written in  *)
 (*            THAT registration ("-" = none)                               *)
 (*   Unregister(s, h)   dispatcher-of-scope-s.unregister(function of h)    *)
@@ -25,7 +26,11 @@
 (*                      every other generation of the history;             *)
 (*                      w = "with_test": as_strategy(hooks=<test           *)
 (*                      dispatcher>) for schema A, "without_test": no test *)
-(*                      dispatcher.  Every history ends with an implicit   *)
+(*                      dispatcher, "with_test_explicit": as with_test,    *)
+(*                      part of the data given explicitly (the rest is     *)
+(*                      generated), "with_test_negative": as with_test,    *)
+(*                      data that violates the schema is generated.        *)
+(*                      Every history ends with an implicit                *)
 (*                      Generate("with_test").                             *)
 (*                                                                         *)
 (* The oracle (AppliedAt) is written from the property text: at EVERY      *)
@@ -45,7 +50,8 @@ CONSTANTS MaxReg,      \* maximal number of registrations in a history
           MaxUnreg,    \* maximal number of unregistrations
           MaxGen,      \* maximal number of intermediate generations
           MaxLen,      \* maximal number of events
-          Narrow       \* TRUE: forms bare / filt_bare / apply and chains C2 (C1, C2 when MaxLen > 3) only (histories with intermediate generations)
+          Negative,    \* TRUE: generations of schema-violating data are part of the histories (expensive to generate)
+          Narrow       \* TRUE: forms bare / filt_bare / apply and chains C1 (C1, C2 when MaxLen > 3) only (histories with intermediate generations)
 (* Rich (declared in HooksCatalogue) = TRUE: thorough catalogue - 4th registrar, 4th chain, other plans, foreign-scope unregister *)
 
 ---------------------------------------------------------------------------
@@ -54,7 +60,9 @@ Registrars == IF Rich THEN {"global", "schema", "schema_hooks", "test"} ELSE {"g
 ScopeOf(r) == IF r = "schema_hooks" THEN "schema" ELSE r
 FilteredForms == IF Narrow THEN {"filt_bare"} ELSE {"filt_bare", "filt_named", "named_filt"}
 PlainForms == IF Narrow THEN {"bare"} ELSE {"bare", "named"}
-UsedChains == IF Narrow THEN (IF MaxLen > 3 THEN {"C1", "C2"} ELSE {"C2"})
+ApplyForms == IF Narrow THEN {"apply_own"} ELSE IF Rich THEN {"apply", "apply_own"} ELSE {"apply"}
+GenModes == {"with_test", "without_test", "with_test_explicit"} \cup (IF Negative THEN {"with_test_negative"} ELSE {})
+UsedChains == IF Narrow THEN (IF MaxLen > 3 THEN {"C1", "C2"} ELSE {"C1"})
               ELSE IF Rich THEN {"C1", "C3", "C4"}
               ELSE {"C2", "C3"}                 \* exclude-only (by tag) and include + exclude
 
@@ -62,7 +70,7 @@ UsedChains == IF Narrow THEN (IF MaxLen > 3 THEN {"C1", "C2"} ELSE {"C2"})
 Plan(names, order) == [names |-> names, order |-> order]
 PlansPairs == { Plan(<<"map_query", "filter_query">>, "AB"),
                 Plan(<<"flatmap_body", "map_case">>, "BA"),
-                Plan(<<"before_generate_body", "map_query">>, "A") }
+                Plan(<<"before_generate_body", "before_init_operation">>, "A") }
 PlansTriples == { Plan(<<"map_query", "map_query", "filter_query">>, "BA"),
                   Plan(<<"before_generate_body", "flatmap_case", "map_case">>, "A"),
                   Plan(<<"filter_case", "before_generate_case", "flatmap_query">>, "AB") }
@@ -70,7 +78,7 @@ PlansRich == { Plan(<<"map_headers", "filter_cookies">>, "AB"),
                Plan(<<"before_generate_path_parameters", "flatmap_headers">>, "BA"),
                Plan(<<"map_body", "flatmap_case">>, "A") }
 PlansGen == { Plan(<<"map_query", "filter_query">>, "AB"),
-              Plan(<<"before_generate_query", "flatmap_headers">>, "BA") }
+              Plan(<<"before_init_operation", "before_generate_query">>, "BA") }
 
 Plans == IF MaxGen > 0 THEN PlansGen ELSE IF Rich THEN PlansRich ELSE IF MaxReg <= 2 THEN PlansPairs ELSE PlansTriples
 
@@ -92,7 +100,7 @@ LiveAt(hs, k, h) == LET p == PosOf(hs, h) IN
 SelTable == [c \in ChainIds \cup {"-"} |-> [o \in 1..NOps |-> Selected(Ops[o], FilterSetOf(c))]]
 (* does the scope of a hook cover a generation for operation o made with / without the test dispatcher *)
 Covers(scope, o, w) == \/ scope = "global"
-                       \/ Ops[o].schema = "A" /\ (scope = "schema" \/ (scope = "test" /\ w = "with_test"))
+                       \/ Ops[o].schema = "A" /\ (scope = "schema" \/ (scope = "test" /\ w # "without_test"))
 (* plan.order: "AB" / "BA" - both schemas are used at every generation, in that order; "A" - schema B is never used in the     *)
 (* process, so nothing is generated for (or applied to) its operations                                                         *)
 Used(ord, o) == ord # "A" \/ Ops[o].schema = "A"
@@ -121,8 +129,8 @@ Init == /\ hist = << >> /\ plan \in Plans
 
 Register(r, f, c) ==
   /\ nreg < MaxReg /\ nreg < Len(plan.names) /\ Len(hist) < MaxLen
-  /\ (f \in PlainForms \/ f = "apply") <=> c = "-"
-  /\ f = "apply" => r = "test"
+  /\ (f \in PlainForms \/ f \in ApplyForms) <=> c = "-"
+  /\ f \in ApplyForms => r = "test"
   /\ hist' = Append(hist, RegEvent(r, f, c, plan.names[nreg + 1]))
   /\ registry' = [registry EXCEPT ![ScopeOf(r)] = Append(@, nreg + 1)]
   /\ filterOf' = Append(filterOf, c)
@@ -144,9 +152,9 @@ Generate(w) ==
   /\ hist' = Append(hist, GenEvent(w))
   /\ UNCHANGED <<plan, registry, filterOf>>
 
-Next == \/ \E r \in Registrars, f \in PlainForms \cup FilteredForms \cup {"apply"}, c \in UsedChains \cup {"-"} : Register(r, f, c)
+Next == \/ \E r \in Registrars, f \in PlainForms \cup FilteredForms \cup ApplyForms, c \in UsedChains \cup {"-"} : Register(r, f, c)
         \/ \E s \in Scopes, h \in 1..MaxReg : Unregister(s, h)
-        \/ \E w \in {"with_test", "without_test"} : Generate(w)
+        \/ \E w \in GenModes : Generate(w)
 Spec == Init /\ [][Next]_vars
 
 ---------------------------------------------------------------------------
